@@ -128,6 +128,10 @@ theorem decTok_encBool (b : Bool) (rest : Bytes) : decTok (encBool b ++ rest) = 
 
 /-! ### str / bin / array / map headers: every size class -/
 
+theorem readLen_be (k : Nat) (mk : Bytes → Tok) (s rest : Bytes) (h : s.length < 256 ^ k) :
+    readLen k mk (be k s.length ++ (s ++ rest)) = some (mk s, rest) := by
+  simp only [readLen, readBE_be_lt k s.length _ h, readN_append]
+
 theorem decTok_encStr (s rest : Bytes) (h : s.length < 2 ^ 32) :
     decTok (encStr s ++ rest) = some (.str s, rest) := by
   unfold encStr encStrLen
@@ -139,25 +143,37 @@ theorem decTok_encStr (s rest : Bytes) (h : s.length < 2 ^ 32) :
     have h4 : ¬ (cFixedStrLow + s.length ≤ 159) := by simp; omega
     have h5 : cFixedStrLow + s.length ≤ 191 := by simp; omega
     have h6 : cFixedStrLow + s.length - 160 = s.length := by simp
-    simp only [decTok, List.cons_append, List.nil_append, List.append_assoc, h1, h2, h3, h4, h5, h6, if_true, if_false,
+    simp only [decTok, List.cons_append, List.nil_append, h1, h2, h3, h4, h5, h6, if_true, if_false,
       readN_append]
   rw [if_neg hl]; simp only [strFixLt] at hl
   by_cases c2 : s.length < str8Lt
-  · rw [if_pos c2]; simp only [str8Lt] at c2; simp [decTok, readLen, readBE_be_lt 1 s.length _ (by omega), readN_append]
+  · rw [if_pos c2]; simp only [str8Lt] at c2
+    have h' : s.length < 256 ^ 1 := by omega
+    simp [decTok, readLen_be 1 _ s rest h']
   rw [if_neg c2]; simp only [str8Lt] at c2
   by_cases c3 : s.length ≤ str16Le
-  · rw [if_pos c3]; simp only [str16Le] at c3; simp [decTok, readLen, readBE_be_lt 2 s.length _ (by omega), readN_append]
-  · rw [if_neg c3]; simp [decTok, readLen, readBE_be_lt 4 s.length _ (by simpa using h), readN_append]
+  · rw [if_pos c3]; simp only [str16Le] at c3
+    have h' : s.length < 256 ^ 2 := by omega
+    simp [decTok, readLen_be 2 _ s rest h']
+  · rw [if_neg c3]
+    have h' : s.length < 256 ^ 4 := by omega
+    simp [decTok, readLen_be 4 _ s rest h']
 
 theorem decTok_encBin (s rest : Bytes) (h : s.length < 2 ^ 32) :
     decTok (encBin s ++ rest) = some (.bin s, rest) := by
   unfold encBin encBinLen
   by_cases c2 : s.length < bin8Lt
-  · rw [if_pos c2]; simp only [bin8Lt] at c2; simp [decTok, readLen, readBE_be_lt 1 s.length _ (by omega), readN_append]
+  · rw [if_pos c2]; simp only [bin8Lt] at c2
+    have h' : s.length < 256 ^ 1 := by omega
+    simp [decTok, readLen_be 1 _ s rest h']
   rw [if_neg c2]; simp only [bin8Lt] at c2
   by_cases c3 : s.length ≤ bin16Le
-  · rw [if_pos c3]; simp only [bin16Le] at c3; simp [decTok, readLen, readBE_be_lt 2 s.length _ (by omega), readN_append]
-  · rw [if_neg c3]; simp [decTok, readLen, readBE_be_lt 4 s.length _ (by simpa using h), readN_append]
+  · rw [if_pos c3]; simp only [bin16Le] at c3
+    have h' : s.length < 256 ^ 2 := by omega
+    simp [decTok, readLen_be 2 _ s rest h']
+  · rw [if_neg c3]
+    have h' : s.length < 256 ^ 4 := by omega
+    simp [decTok, readLen_be 4 _ s rest h']
 
 theorem decTok_encArrLen (l : Nat) (rest : Bytes) (h : l < 2 ^ 32) :
     decTok (encArrLen l ++ rest) = some (.arr l, rest) := by
@@ -189,5 +205,68 @@ theorem decTok_encMapLen (l : Nat) (rest : Bytes) (h : l < 2 ^ 32) :
   by_cases c3 : l ≤ map16Le
   · rw [if_pos c3]; simp only [map16Le] at c3; simp [decTok, readNum, readBE_be_lt 2 l _ (by omega)]
   · rw [if_neg c3]; simp [decTok, readNum, readBE_be_lt 4 l _ (by simpa using h)]
+
+/-! ### timestamp extension (ext -1): 32 / 64 / 96-bit classes -/
+
+theorem readExtN_append (t : Nat) (d rest : Bytes) :
+    readExtN d.length (t :: (d ++ rest)) = some (.ext t d, rest) := by
+  simp [readExtN, readN_append]
+
+theorem timeData_length (sec : Int) (nsec : Nat) :
+    (timeData sec nsec).length = 4 ∨ (timeData sec nsec).length = 8 ∨ (timeData sec nsec).length = 12 := by
+  unfold timeData
+  simp only
+  split
+  · split <;> simp [be_length]
+  · simp [be_length]
+
+theorem decTok_encTime (sec : Int) (nsec : Nat) (rest : Bytes) :
+    decTok (encTime sec nsec ++ rest) = some (.ext 255 (timeData sec nsec), rest) := by
+  unfold encTime
+  simp only
+  rcases timeData_length sec nsec with h | h | h
+  · have := readExtN_append 255 (timeData sec nsec) rest
+    rw [h] at this
+    simp [h, encExtLen, extFixLens, List.lookup, decTok, this]
+  · have := readExtN_append 255 (timeData sec nsec) rest
+    rw [h] at this
+    simp [h, encExtLen, extFixLens, List.lookup, decTok, this]
+  · have := readExtN_append 255 (timeData sec nsec) rest
+    rw [h] at this
+    have hb : readBE 1 (be 1 12 ++ (255 :: (timeData sec nsec ++ rest))) = some (12, 255 :: (timeData sec nsec ++ rest)) :=
+      readBE_be_lt 1 12 _ (by omega)
+    simp [h, encExtLen, extFixLens, List.lookup, decTok, readExt, hb, this]
+
+theorem readBE_be_nil (k v : Nat) (h : v < 256 ^ k) : readBE k (be k v) = some (v, []) := by
+  have := readBE_be_lt k v [] h
+  simpa using this
+
+theorem decTime_timeData (sec : Int) (nsec : Nat) (h1 : -(2 ^ 63) ≤ sec) (h2 : sec < 2 ^ 63)
+    (hn : nsec < 1000000000) : decTime (timeData sec nsec) = some (sec, nsec) := by
+  unfold timeData
+  simp only
+  have hu : u64 sec < 2 ^ 64 := by unfold u64 two64; omega
+  by_cases c1 : u64 sec / 2 ^ timeSecShift = 0
+  · rw [if_pos c1]
+    by_cases c2 : (nsec * 2 ^ timeSecShift + u64 sec) / 2 ^ 32 % 2 ^ 32 = 0
+    · rw [if_pos c2]
+      simp only [timeSecShift] at c1 c2 ⊢
+      have hs : u64 sec < 2 ^ 34 := by omega
+      have hsec : (u64 sec : Int) = sec := by unfold u64 two64 at *; omega
+      have hd : nsec * 2 ^ 34 + u64 sec < 256 ^ 4 := by omega
+      have hz : nsec = 0 := by omega
+      simp [decTime, be_length, readBE_be_nil 4 _ hd]
+      omega
+    · rw [if_neg c2]
+      simp only [timeSecShift] at c1 c2 ⊢
+      have hs : u64 sec < 2 ^ 34 := by omega
+      have hsec : (u64 sec : Int) = sec := by unfold u64 two64 at *; omega
+      have hd : nsec * 2 ^ 34 + u64 sec < 256 ^ 8 := by omega
+      simp [decTime, be_length, readBE_be_nil 8 _ hd]
+      omega
+  · rw [if_neg c1]
+    have hn' : nsec < 256 ^ 4 := by omega
+    have hu' : u64 sec < 256 ^ 8 := by omega
+    simp [decTime, be_length, readBE_be_lt 4 nsec _ hn', readBE_be_nil 8 _ hu', toSigned64_u64 sec h1 h2]
 
 end Arc.C19
